@@ -379,7 +379,7 @@ Section Run.
                      map_ok (VVariant (vi_ident vi))
                             (parse_fields fs cs (vi_auk vi) (state0 fs) items (fun _ => Ok None)
                                           (fun e => at_ (vi_name vi) (with_span (i_span (ninfo nested_)) e)))
-                 | NBadList _ _ _ es msg => Err (from_syn es msg)
+                 | NBadList _ _ _ es msg => Err (at_ (vi_name vi) (from_syn es msg))     (* located under the variant, like the rest *)
                  | _ => Err (with_span (i_span (ninfo nested_)) (unsupported_format "non-list"))
                  end
              end)
